@@ -230,6 +230,9 @@ def cli_part(chk):
         expect("abandoned after 1 of 3 invocations", ["-D", "c.yaml"], 1, script={"by_key": {"Ba:2": {"rc": 0, "out": "garbage\n"}}})
         expect("output with braces and a failure", ["-D", "c.yaml"], 1, script={"by_key": {"Ba": {"rc": 2, "out": "{x} {0} }{ {ind}\n"}}})
         expect("unparsable output with braces", ["-D", "c.yaml"], 1, script={"by_key": {"Bb": {"rc": 0, "out": "{'a': 1} {ind}{ind}\n"}}})
+        # numerals of the documented grammar beyond the range of floats: the values are inf, the mean inf or nan - still a report
+        expect("a runtime beyond the range of floats", ["-D", "c.yaml"], 0,
+               script={"by_key": {"Ba": {"rc": 0, "out": "Ba: iterations=1 runtime: 1e999us\n"}, "Bb:2": {"rc": 0, "out": "Bb: iterations=1 runtime: 9e400ms\n"}}})
         expect("braces in the command", ["-D", "c.yaml"], 0, raw=cli_config(d, ["Ba"], command="%(benchmark)s %(invocation)s {x} {0} {ind}"), script={})
         expect("braces in benchmark and suite settings, failing", ["-D", "c.yaml"], 1,
                raw=cli_config(d, [{"B{a}": {"extra_args": "{y}"}}], extra_suite={"location": d}), script={"default": {"rc": 1, "out": "{z}\n"}})
